@@ -71,6 +71,8 @@ def oracle(case):
             v.append({"what": f"horizontal surface does not receive the horizontal input: off by {i['worst_horizontal']['err']} W/m2 at {i['worst_horizontal']['at']}", "key": {"class": "horizontal-conservation"}})
         if i["worst_downward"]["err"] > 0.5:
             v.append({"what": f"downward surface does not receive albedo x global: off by {i['worst_downward']['err']} W/m2 at {i['worst_downward']['at']}", "key": {"class": "downward-albedo"}})
+        if i.get("worst_low_sun_downward", {}).get("err", 0) > 0.5:
+            v.append({"what": f"downward surface under a low sun does not receive albedo x global: off by {i['worst_low_sun_downward']['err']} W/m2 at {i['worst_low_sun_downward']['at']}", "key": {"class": "downward-albedo", "low_sun": True}})
         if i["negative_beam"]:
             v.append({"what": f"negative beam radiation: {i['negative_beam'][0]}", "key": {"class": "beam-negative"}})
         _stats["hours_checked"] += i["hours_horizontal"]
